@@ -1,2 +1,235 @@
+//! C16 — Boudot range proof: in-range values prove, nothing else is accepted.
+
+use crate::clutil::*;
 use crate::common::*;
-pub fn scenarios(_ctx: &Ctx) -> Vec<Scenario> { vec![] }
+use rug::{ops::Pow, Integer};
+use serde_json::{json, Value};
+use sha2::Sha256;
+use zkryptium::cl03::commitment::CL03Commitment;
+use zkryptium::cl03::range_proof::Boudot2000RangeProof as Rp;
+
+const T_: u32 = 128;
+const L_: u32 = 40;
+
+fn commit(x: &Integer, r: &Integer, g: &Integer, h: &Integer, n: &Integer) -> Integer {
+    mulm(&powm(g, x, n), &powm(h, r, n), n)
+}
+
+/// public quantities of the "proof with tolerance": (T, aa, bb)
+fn tol(a: &Integer, b: &Integer) -> (u32, Integer, Integer) {
+    let t = 2 * (T_ + L_ + 1) + Integer::from(b - a).significant_bits();
+    let s = Integer::from(2).pow(L_ + T_ + t / 2 + 1) * Integer::from(b - a).sqrt();
+    let aa = Integer::from(2).pow(t) * a - &s;
+    let bb = Integer::from(2).pow(t) * b + &s;
+    (t, aa, bb)
+}
+
+fn inv(x: &Integer, n: &Integer) -> Integer {
+    x.clone().invert(n).expect("invertible")
+}
+
+fn one_interval<C: Cs>(ctx: &Ctx, st: &Setup<C>, other: Option<&Setup<C>>, r: &mut impl rand::RngCore, a: Integer, w: Integer, tamper: bool) {
+    let (g, h, n) = (&st.cpk.g_bases[0], &st.cpk.h, &st.cpk.N);
+    let b = Integer::from(&a + &w);
+    let case = format!("{}/a={}b/w={}b", C::NAME, a.significant_bits(), w.significant_bits());
+    let mid = Integer::from(&a + Integer::from(&w / 2u32));
+    let rnd = Integer::from(&a + rand_int_bits(r, w.significant_bits().max(1)) % Integer::from(&w + 1u32));
+    let inside: Vec<(&str, Integer)> = vec![("a", a.clone()), ("a+1", Integer::from(&a + 1u32)), ("mid", mid), ("b-1", Integer::from(&b - 1u32)), ("b", b.clone()), ("random", rnd)];
+    let mut honest: Option<(Integer, Integer, Rp, Integer)> = None; // (x, r, proof, E)
+    for (nm, x) in &inside {
+        if x < &a || x > &b {
+            continue;
+        }
+        let full = format!("{}/x={}", case, nm);
+        ctx.distinct(&full);
+        let rr = rand_int_bits(r, C::ln);
+        let e = commit(x, &rr, g, h, n);
+        let c = CL03Commitment { value: e.clone(), randomness: rr.clone() };
+        let p = ctx.call("Boudot::prove", &full, None, || Ok::<_, ()>(Rp::prove::<Sha256>(x, &c, g, h, n, &a, &b)));
+        let Some(p) = p.value else {
+            ctx.violation("C16:prove-panicked-for-in-range-value", json!({"case":full,"a":ihex(&a),"b":ihex(&b),"x":ihex(x),"outcome":p.outcome.short()}));
+            continue;
+        };
+        let v = ctx.call("Boudot::verify", &full, None, || Ok::<_, ()>(p.verify::<Sha256>(g, h, n, &a, &b)));
+        if v.value != Some(true) {
+            ctx.violation("C16:honest-proof-rejected", json!({"case":full,"a":ihex(&a),"b":ihex(&b),"x":ihex(x),"outcome":format!("{:?}/{}", v.value, v.outcome.short())}));
+            continue;
+        }
+        if p.E != e {
+            ctx.violation("C16:proof-not-about-the-commitment", json!({"case":full}));
+        }
+        if *nm == "mid" || honest.is_none() {
+            honest = Some((x.clone(), rr, p, e));
+        }
+    }
+    // out-of-range values: the honest prover yields no accepted proof
+    let outside: Vec<(String, Integer)> = vec![
+        ("a-1".into(), Integer::from(&a - 1u32)),
+        ("b+1".into(), Integer::from(&b + 1u32)),
+        ("a-2^20".into(), Integer::from(&a - (Integer::from(1) << 20))),
+        ("b+2^20".into(), Integer::from(&b + (Integer::from(1) << 20))),
+        ("a-2^300".into(), Integer::from(&a - (Integer::from(1) << 300))),
+        ("b+2^300".into(), Integer::from(&b + (Integer::from(1) << 300))),
+        ("2b+1".into(), Integer::from(&b * 2u32) + 1u32),
+    ];
+    for (nm, x) in &outside {
+        let full = format!("{}/x={}", case, nm);
+        ctx.distinct(&full);
+        let rr = rand_int_bits(r, C::ln);
+        let e = commit(x, &rr, g, h, n);
+        let c = CL03Commitment { value: e, randomness: rr };
+        let p = ctx.call("Boudot::prove", &full, None, || Ok::<_, ()>(Rp::prove::<Sha256>(x, &c, g, h, n, &a, &b)));
+        if let Some(p) = p.value {
+            let v = ctx.call("Boudot::verify", &full, None, || Ok::<_, ()>(p.verify::<Sha256>(g, h, n, &a, &b)));
+            if v.value == Some(true) {
+                ctx.violation("C16:out-of-range-value-proved", json!({"case":full,"a":ihex(&a),"b":ihex(&b),"x":ihex(x)}));
+            }
+        } else {
+            ctx.count("out_of_range_prover_refused_by_panic", 1);
+        }
+    }
+    let Some((x, _rr, proof, e)) = honest else { return };
+    let j = serde_json::to_value(&proof).unwrap();
+    let reject = |kind: &str, f: &dyn Fn() -> bool| {
+        let full = format!("{}/{}", case, kind);
+        ctx.distinct(&full);
+        let v = ctx.call("Boudot::verify", &full, None, || Ok::<_, ()>(f()));
+        if v.value == Some(true) {
+            ctx.violation(&format!("C16:accepted/{}", kind.split('#').next().unwrap()), json!({"case":full,"a":ihex(&a),"b":ihex(&b),"x":ihex(&x)}));
+        }
+    };
+    // other bounds, bases, modulus
+    let one = Integer::from(1);
+    if a > 0 {
+        reject("bounds#a-1", &|| proof.verify::<Sha256>(g, h, n, &Integer::from(&a - &one), &b));
+    }
+    if Integer::from(&a + &one) < b {
+        reject("bounds#a+1", &|| proof.verify::<Sha256>(g, h, n, &Integer::from(&a + &one), &b));
+    }
+    reject("bounds#b+1", &|| proof.verify::<Sha256>(g, h, n, &a, &Integer::from(&b + &one)));
+    if Integer::from(&b - &one) > a {
+        reject("bounds#b-1", &|| proof.verify::<Sha256>(g, h, n, &a, &Integer::from(&b - &one)));
+    }
+    reject("bounds#shifted", &|| proof.verify::<Sha256>(g, h, n, &Integer::from(&a + &w), &Integer::from(&b + &w)));
+    reject("bases#swapped", &|| proof.verify::<Sha256>(h, g, n, &a, &b));
+    if st.cpk.g_bases.len() > 1 {
+        reject("bases#other-g", &|| proof.verify::<Sha256>(&st.cpk.g_bases[1], h, n, &a, &b));
+    }
+    reject("bases#h-squared", &|| proof.verify::<Sha256>(g, &mulm(h, h, n), n, &a, &b));
+    if let Some(o) = other {
+        reject("modulus#other", &|| proof.verify::<Sha256>(g, h, &o.cpk.N, &a, &b));
+        reject("modulus#other-with-its-bases", &|| proof.verify::<Sha256>(&o.cpk.g_bases[0], &o.cpk.h, &o.cpk.N, &a, &b));
+    }
+    // ---------------- transplants onto other commitments
+    let (t, aa, bb) = tol(&a, &b);
+    let get = |path: &str| leaves(&j).into_iter().find(|(p, _)| p == path).map(|x| x.1).expect(path);
+    let targets: Vec<(String, Integer)> = vec![
+        ("a-1".into(), commit(&Integer::from(&a - 1u32), &rand_int_bits(r, C::ln), g, h, n)),
+        ("b+1".into(), commit(&Integer::from(&b + 1u32), &rand_int_bits(r, C::ln), g, h, n)),
+        ("b+2^64".into(), commit(&Integer::from(&b + (Integer::from(1) << 64)), &rand_int_bits(r, C::ln), g, h, n)),
+        ("10b".into(), commit(&Integer::from(&b * 10u32), &rand_int_bits(r, C::ln), g, h, n)),
+        ("a-2^64".into(), commit(&Integer::from(&a - (Integer::from(1) << 64)), &rand_int_bits(r, C::ln), g, h, n)),
+        ("random-element".into(), { let z = rand_int_bits(r, C::ln - 2); mulm(&z, &z, n) }),
+        ("same-value-other-randomness".into(), commit(&x, &rand_int_bits(r, C::ln), g, h, n)),
+    ];
+    for (tn, e2) in &targets {
+        if e2 == &e {
+            continue;
+        }
+        let ep2 = powm(e2, &(Integer::from(1) << t), n);
+        let ea2 = mulm(&ep2, &inv(&powm(g, &aa, n), n), n);
+        let eb2 = mulm(&powm(g, &bb, n), &inv(&ep2, n), n);
+        // variant 1 (keep the *_2 commitments and all sub-proofs, recompute *_1): F8's forgery
+        let mut j1 = j.clone();
+        set_leaf(&mut j1, "/E", e2);
+        set_leaf(&mut j1, "/E_prime", &ep2);
+        set_leaf(&mut j1, "/proof_of_tolerance/E_a_1", &mulm(&ea2, &inv(&get("/proof_of_tolerance/E_a_2"), n), n));
+        set_leaf(&mut j1, "/proof_of_tolerance/E_b_1", &mulm(&eb2, &inv(&get("/proof_of_tolerance/E_b_2"), n), n));
+        // variant 2 (keep *_1, recompute *_2)
+        let mut j2 = j.clone();
+        set_leaf(&mut j2, "/E", e2);
+        set_leaf(&mut j2, "/E_prime", &ep2);
+        set_leaf(&mut j2, "/proof_of_tolerance/E_a_2", &mulm(&ea2, &inv(&get("/proof_of_tolerance/E_a_1"), n), n));
+        set_leaf(&mut j2, "/proof_of_tolerance/E_b_2", &mulm(&eb2, &inv(&get("/proof_of_tolerance/E_b_1"), n), n));
+        // variant 3 (only E / E_prime replaced)
+        let mut j3 = j.clone();
+        set_leaf(&mut j3, "/E", e2);
+        set_leaf(&mut j3, "/E_prime", &ep2);
+        // variant 4: variant 1 plus the square proofs' own E fields re-pointed to the new E_*_1 (keeps F and proof_ss)
+        let mut j4 = j1.clone();
+        let l4 = leaves(&j1);
+        let g4 = |p: &str| l4.iter().find(|(q, _)| q == p).unwrap().1.clone();
+        set_leaf(&mut j4, "/proof_of_tolerance/proof_of_square_a/E", &g4("/proof_of_tolerance/E_a_1"));
+        set_leaf(&mut j4, "/proof_of_tolerance/proof_of_square_b/E", &g4("/proof_of_tolerance/E_b_1"));
+        for (vn, jj) in [("recompute-E_1", j1), ("recompute-E_2", j2), ("replace-E-only", j3), ("recompute-E_1+repoint-square-E", j4)] {
+            let full = format!("{}/transplant/{}/{}", case, vn, tn);
+            ctx.distinct(&full);
+            let Ok(p2) = serde_json::from_value::<Rp>(jj) else { continue };
+            let v = ctx.call("Boudot::verify", &full, None, || Ok::<_, ()>(p2.verify::<Sha256>(g, h, n, &a, &b)));
+            if v.value == Some(true) {
+                ctx.violation(&format!("C16:transplanted-proof-accepted/{}", vn), json!({"case":full,"target":tn,"a":ihex(&a),"b":ihex(&b),"honest_x":ihex(&x)}));
+            }
+            ctx.count("transplants", 1);
+        }
+    }
+    // ---------------- field-wise edits
+    if tamper {
+        let variants = tampered_variants(&j, r, 1000);
+        ctx.count("proof_tampered_variants", variants.len() as u64);
+        par_for_each(&variants, 4, |(kind, path, j2): &(String, String, Value)| {
+            let cls = path_class(path);
+            let full = format!("{}/tamper/{}/{}", case, kind, path);
+            ctx.distinct(&format!("{}/tamper/{}/{}", C::NAME, kind, cls));
+            let Ok(p2) = serde_json::from_value::<Rp>(j2.clone()) else { return };
+            let v = ctx.call("Boudot::verify", &full, None, || Ok::<_, ()>(p2.verify::<Sha256>(g, h, n, &a, &b)));
+            if v.value == Some(true) {
+                ctx.violation(&format!("C16:tampered-proof-accepted/{}", cls), json!({"case":full,"edit":kind,"leaf":path}));
+            }
+        });
+    }
+    ctx.sample(json!({"case":case,"a":ihex(&a),"b":ihex(&b),"honest_x":ihex(&x),"T":t,"integer_leaves":leaves(&j).len(),"tampered":tamper}));
+}
+
+fn run<C: Cs>(ctx: &Ctx, idx: u64, part: usize, parts: usize) {
+    let mut r = ctx.rng("c16", idx);
+    let Some(st) = Setup::<C>::new(ctx, 2) else {
+        ctx.inconclusive("C16: key generation panicked (C18's business)");
+        return;
+    };
+    let other = Setup::<C>::new(ctx, 1);
+    let starts: Vec<Integer> = vec![Integer::from(0), Integer::from(1), (Integer::from(1) << (C::le - 1)) + 1u32, rand_int_bits(&mut r, 256)];
+    let mut widths: Vec<Integer> = vec![1u32, 2, 3, 4, 255, 256].into_iter().map(Integer::from).collect();
+    widths.push(Integer::from(1) << 64);
+    widths.push((Integer::from(1) << 256) - 1u32);
+    widths.push((Integer::from(1) << (C::le - 1)) - 2u32);
+    widths.push((Integer::from(1) << 1024) - 1u32);
+    if !ctx.quick() {
+        for k in [5u32, 7, 16, 17, 100, 511, 512] {
+            widths.push((Integer::from(1) << k) + (k % 3));
+        }
+    }
+    let mut k = 0;
+    for a in &starts {
+        for w in &widths {
+            k += 1;
+            if k % parts != part {
+                continue;
+            }
+            let tamper = ctx.t(k % 13 == 1, k % 4 == 1);
+            one_interval::<C>(ctx, &st, other.as_ref(), &mut r, a.clone(), w.clone(), tamper);
+        }
+    }
+}
+
+pub fn scenarios(ctx: &Ctx) -> Vec<Scenario> {
+    use zkryptium::cl03::ciphersuites::{CL1024Sha256, CL2048Sha256};
+    let mut v = Vec::new();
+    let parts = ctx.t(8usize, 14usize);
+    if !ctx.quick() {
+        v.push(scenario("CL2048", move |c| run::<CL2048Sha256>(c, 200, 0, 6)));
+    }
+    for p in 0..parts {
+        v.push(scenario(format!("CL1024/part{p}"), move |c| run::<CL1024Sha256>(c, p as u64, p, parts)));
+    }
+    v
+}
